@@ -64,6 +64,8 @@ def parse_tlc_output(text: str) -> TlcResult:
     res.stdout = text
     for line in text.splitlines():
         m = _CASE_RE.match(line)
+        if m is None and line.startswith('<<"') and '"CASE"' in line[:12]:
+            raise MachineryError(f'malformed CASE line from TLC: {line[:200]}')
         if m:
             try:
                 payload = json.loads(json.loads(m.group(2)))
@@ -157,15 +159,16 @@ def run_tlc(
         shutil.rmtree(work, ignore_errors=True)
 
 
-def run_tlc_sharded(module: str, cfg_of_shard, nshards: int, **kw) -> TlcResult:
+def run_tlc_sharded(module: str, cfg_of_shard, nshards: int, *, workers: int = 4, parallel: int = 4,
+                    **kw) -> TlcResult:
     """Run `nshards` single-worker TLC processes in parallel (generation is dominated by the
     single-threaded enumeration of initial states); cfg_of_shard(i) returns the cfg text."""
     from concurrent.futures import ThreadPoolExecutor
 
     def one(i: int) -> TlcResult:
-        return run_tlc(module, cfg_of_shard(i), workers=1, tag=f's{i}', **kw)
+        return run_tlc(module, cfg_of_shard(i), workers=workers, tag=f's{i}', **kw)
 
-    with ThreadPoolExecutor(max_workers=min(nshards, NPROC)) as pool:
+    with ThreadPoolExecutor(max_workers=min(nshards, parallel)) as pool:
         parts = list(pool.map(one, range(nshards)))
     total = parts[0]
     for p in parts[1:]:
